@@ -106,6 +106,20 @@ def requests(ctx):
     return batches, origin, small, big
 
 
+def history_witnesses(diffs):
+    """disagreements of view histories (query, turns assignment, query): the direct statement of the property on the
+    implementation is that every view equals that of a fresh complex at the same rotation"""
+    from common import run_impl, Err
+    hreqs = [d[1] for d in diffs if d[1][0] == "c03_history"][:20]
+    out = []
+    if hreqs:
+        for rq, r in zip(hreqs, run_impl([("c03_fresh_compare", q[1]) for q in hreqs])):
+            if isinstance(r, Err) or r:
+                out.append({"key": {"seq": rq[1][0], "struct": "".join(rq[1][1]), "ops": rq[1][2]}, "input": {"history": rq[1]},
+                            "what": str(r), "snippet": f"# harness op c03_fresh_compare {rq[1]!r} (harness/impl/views.py)"})
+    return out
+
+
 def run(ctx):
     res = prove(ctx)
     runner = ensure_model_runner()
@@ -116,7 +130,7 @@ def run(ctx):
         # exterior / enclosed domains, loop indices and connectivity must describe the CURRENT rotation: query,
         # rotate the object through `turns`, query again in the other order (state machine of Model/Views.v)
         tr = []
-        pool = [x for x in small if "+" in x and len(x) <= 7] + ["(.)+.", ".+(.)", "(.)+(.)", "(.).+.", "((.))+.", ".+(.)+.", "(.)(+).", "(+(.))+."]
+        pool = [x for x in small if "+" in x and len(x) <= 7] + ["(.(+)).", "((.)+)", "(+(.))", "(.(+).)", "((.)(+))", "(+)(.)", "(.)(+)", "(.(+)+).", "(+(.)+)", "(.)+.", ".+(.)", "(.)(+).", "(+(.))+."]
         for s_ in (pool if ctx.tier != "quick" else ctx.rng.sample(pool, min(len(pool), 300)) + pool[-8:]):
             n_ = s_.count("+") + 1
             sq_ = gs.seq_for(ctx.rng, s_)
@@ -136,6 +150,7 @@ def run(ctx):
     ctx.cov["partial"] = read_partial("C08")
 
     def search(diffs):
+        pre = history_witnesses(diffs)
         rng = ctx.rng
         cases = []
         for d in diffs[:4]:
@@ -158,7 +173,7 @@ def run(ctx):
         for f in out["failures"][:10]:
             found.append({"key": {"s": f["s"]}, "input": {"s": f["s"], "seq": f["seq"]}, "what": f["what"],
                           "snippet": snippet(f["s"], f["seq"])})
-        return found
+        return pre + found
 
     conclude(ctx, res, runner, diffs, search)
 
@@ -199,6 +214,11 @@ def replay(data):
     if not inp:
         print("replay file names a broken proof/correspondence link only:", json.dumps(data.get("broken_links"))[:2000])
         return 1
+    if isinstance(inp, dict) and "history" in inp:
+        from common import run_impl
+        r = run_impl([("c03_fresh_compare", inp["history"])])[0]
+        print(r)
+        return 1 if r else 0
     out = run_oracle("c08.py", {"cases": [inp]})
     print(json.dumps(out))
     return 1 if out["failures"] else 0
